@@ -114,7 +114,20 @@ def check_input(ctx, mon, g, pg, parser, pkeys, case, inp, tree_limit=250):
             o = glrobs.parse_glr(parser, inp)
             if o.kind != "forest":
                 return
-            judge(ctx, mon, g, pkeys, case, inp, o, key, tree_limit)
+            try:
+                judge(ctx, mon, g, pkeys, case, inp, o, key, tree_limit)
+            except (pgx.CaseTimeout, pgx.BudgetExceeded):
+                raise
+            except Exception as e:  # noqa: BLE001
+                # the forest API raised on a valid use (valid index, iteration, counting)
+                import traceback
+
+                where = traceback.extract_tb(e.__traceback__)[-1]
+                ctx.violation(
+                    "forest-api-raises:" + type(e).__name__,
+                    case,
+                    "%s: %s while using the forest on valid indices / iteration (at %s:%s %s)" % (type(e).__name__, str(e)[:150], where.filename.split("/")[-1], where.lineno, where.name),
+                )
     except pgx.CaseTimeout:
         ctx.case(key, False)
         ctx.inconc("timeout: %r on %r" % (case["grammar"], inp))
